@@ -5,6 +5,7 @@ go 1.26.8
 require (
 	github.com/expr-lang/expr v1.17.8
 	golang.org/x/net v0.59.0
+	gopkg.in/yaml.v3 v3.0.1
 	golang.org/x/tools v0.50.0
 )
 
